@@ -264,6 +264,8 @@ type Spec struct {
 	// InlineHelpers descends into unexported functions of the root's package
 	// (extracted helpers), unless the call's events say Stop.
 	InlineHelpers bool
+	// NoHelpers switches the default helper inlining off for a rule.
+	NoHelpers bool
 	// Eval may decide a branch condition by constant propagation (used by the
 	// TABLE rules that fix one input to a constant); known=false leaves both
 	// directions open.
@@ -299,6 +301,9 @@ type cellInfo struct {
 var thoroughBoost bool
 
 func NewTracer(p *Prog, spec *Spec, root *ssa.Function) *Tracer {
+	if !spec.NoHelpers {
+		spec.InlineHelpers = true
+	}
 	if thoroughBoost {
 		if spec.EdgeLimit == 0 {
 			spec.EdgeLimit = 2
@@ -469,9 +474,43 @@ func (t *Tracer) follow(fr *Frame, from, to *ssa.BasicBlock, st State, k func(St
 	t.execBlock(fr, to, 0, st, k)
 }
 
+// condView returns the condition as the rule should see it: when the
+// tested value is the result of an inlined predicate helper
+// (`if s.isQueueing()`), the helper's returned expression in the helper's
+// frame, with flip telling whether the view is negated.
+func (t *Tracer) condView(fr *Frame, c ssa.Value) (vfr *Frame, v ssa.Value, flip bool) {
+	vfr, v = fr, c
+	for depth := 0; depth < 6; depth++ {
+		if u, ok := v.(*ssa.UnOp); ok && u.Op == token.NOT {
+			if _, isCall := u.X.(*ssa.Call); isCall {
+				if r := t.Resolve(vfr, u.X); r.V != u.X {
+					vfr, v, flip = r.Fr, r.V, !flip
+					continue
+				}
+			}
+			return
+		}
+		if _, isCall := v.(*ssa.Call); isCall {
+			if r := t.Resolve(vfr, v); r.V != v && r.V != nil {
+				if _, isConst := r.V.(*ssa.Const); isConst {
+					return
+				}
+				vfr, v = r.Fr, r.V
+				continue
+			}
+		}
+		return
+	}
+	return
+}
+
 func (t *Tracer) execIf(fr *Frame, i *ssa.If, st State, k func(State, []Ref)) {
 	t.cur = st
-	key, neg, lhs, cst := t.condKey(fr, i.Cond, st)
+	vfr, vcond, vflip := t.condView(fr, i.Cond)
+	key, neg, lhs, cst := t.condKey(vfr, vcond, st)
+	if vflip {
+		neg = !neg
+	}
 	dirs := []bool{true, false}
 	if c, ok := constBool(i.Cond); ok {
 		dirs = []bool{c}
@@ -479,6 +518,8 @@ func (t *Tracer) execIf(fr *Frame, i *ssa.If, st State, k func(State, []Ref)) {
 		dirs = []bool{c}
 	} else if v, ok := t.evalCond(fr, i.Cond); ok {
 		dirs = []bool{v}
+	} else if v, ok := t.evalCond(vfr, vcond); ok && vcond != i.Cond {
+		dirs = []bool{v != vflip}
 	} else if key != "" {
 		if v, ok := st.fact(key); ok {
 			dirs = []bool{v != neg}
@@ -501,7 +542,13 @@ func (t *Tracer) execIf(fr *Frame, i *ssa.If, st State, k func(State, []Ref)) {
 		}
 		if t.Spec.Branch != nil {
 			t.cur = st2
-			for _, e := range t.Spec.Branch(t, fr, i, d) {
+			evs := t.Spec.Branch(t, fr, i, d)
+			if vcond != i.Cond {
+				// the same decision seen through the predicate helper's own expression
+				fake := &ssa.If{Cond: vcond}
+				evs = append(evs, t.Spec.Branch(t, vfr, fake, d != vflip)...)
+			}
+			for _, e := range evs {
 				if e.Fr == nil {
 					e.Fr = fr
 				}
@@ -895,6 +942,9 @@ func (t *Tracer) isRepo(f *ssa.Function) bool {
 func (t *Tracer) inline(fr *Frame, c ssa.CallInstruction, f *ssa.Function) bool {
 	if t.Spec.Inline != nil && t.Spec.Inline(t, fr, c, f) {
 		return true
+	}
+	if _, isGo := c.(*ssa.Go); isGo {
+		return false // a new goroutine is not part of this path
 	}
 	if t.Spec.InlineHelpers {
 		if f.Parent() != nil {
